@@ -103,7 +103,7 @@ class Template:
         self.returns_module = False
 
     def ctx(self, enums=None, aliases=None):
-        return ir.NormCtx(enums=enums or {}, sigs={s.id: s.ctor for s in self.sigs.values()}, aliases=aliases)
+        return ir.NormCtx(enums=enums or {}, sigs={s.id: s.ctor for s in self.sigs.values()}, aliases=aliases or {})
 
 
 # frames -------------------------------------------------------------------------------------
@@ -205,7 +205,7 @@ class Walker:
             return
         if isinstance(st, ast.Delete):
             return
-        if isinstance(st, ast.Pass):
+        if isinstance(st, (ast.Pass, ast.Raise)):
             return
         if isinstance(st, ast.FunctionDef):
             return self.localdef(st)
@@ -656,9 +656,11 @@ class Walker:
         env_f = self.env
         self.gen = saved_gen
         merged = {}
+        params = set(self.fi.params)
         for name in set(env_t) | set(env_f):
-            a = env_t.get(name, ('undef',))
-            b = env_f.get(name, ('undef',))
+            free = ('name', name) if name in params else ('undef',)
+            a = env_t.get(name, free)
+            b = env_f.get(name, free)
             if a == b:
                 merged[name] = a
                 continue
